@@ -40,26 +40,38 @@ KuOfArg(a) == CASE a = "serverauth" -> "sig+enc+agree" [] a = "codesigning" -> "
 EkuOfArg(a) == CASE a = "serverauth" -> "serverAuth" [] a = "codesigning" -> "codeSigning" [] OTHER -> "none"
 SigAlg(k, pss) == CASE k = "rsa" -> (IF pss THEN "SHA256-RSAPSS" ELSE "SHA256-RSA") [] k = "p256" -> "ECDSA-SHA256" [] OTHER -> "ECDSA-SHA384"
 
+PlainInput == [sanDns |-> FALSE, sanEmail |-> FALSE, bc |-> "absent", ku |-> FALSE, eku |-> FALSE,
+               unknown |-> "absent", ski |-> FALSE, sigok |-> TRUE, form |-> "pem", aki |-> FALSE]
+AllArgs == [cn : BOOLEAN, dns : BOOLEAN, ku : KuArgs, ca : BOOLEAN, serial : Serials, copy : BOOLEAN, pss : BOOLEAN]
+AllInputs == [sanDns : BOOLEAN, sanEmail : BOOLEAN, bc : Bcs, ku : BOOLEAN, eku : BOOLEAN, unknown : Unknowns, ski : BOOLEAN,
+              sigok : BOOLEAN, form : Forms, aki : BOOLEAN]
+
+\* the flag --copy-extensions exists for `sign` only; request and selfsign need --commonName
+ArgsFor(m) == {a \in AllArgs :
+                 /\ (m # "sign" => ~a.copy)
+                 /\ (m \in {"request", "selfsign"} => a.cn)
+                 /\ (m = "request" => (~a.ca /\ a.ku = "none" /\ a.serial = "none"))}
+\* request and selfsign have no input.  A certificate that is cross-signed was issued by somebody: its signature is
+\* not relic's business, it may carry an authorityKeyIdentifier; a request never does.  Dimensions that do not
+\* interact are sampled.
+InputsFor(m, a) ==
+  IF m \in {"request", "selfsign"} THEN {PlainInput}
+  ELSE {i \in AllInputs :
+          /\ (m = "cross" => i.sigok) /\ (m # "cross" => ~i.aki)
+          /\ (a.pss => i.form = "pem")
+          /\ (a.serial # "none" => (i.form = "pem" /\ i.unknown = "absent" /\ ~i.ski))
+          /\ (i.form # "pem" => (a.ku = "none" /\ ~a.dns /\ i.unknown = "absent" /\ ~i.ski /\ ~i.sanEmail))}
+IssuersFor(m, a, i) ==
+  {x \in [key : IssuerKeys, hasSki : BOOLEAN] :
+     /\ (m \in {"request", "selfsign"} => x.hasSki)
+     /\ (a.pss => (x.key = "rsa" /\ a.serial = "none"))
+     /\ (x.key # "rsa" => (i.unknown = "absent" /\ ~i.sanEmail /\ ~i.ski))}
+
 Init ==
   /\ mode \in Modes
-  /\ args \in [cn : BOOLEAN, dns : BOOLEAN, ku : KuArgs, ca : BOOLEAN, serial : Serials, copy : BOOLEAN, pss : BOOLEAN]
-  /\ input \in [sanDns : BOOLEAN, sanEmail : BOOLEAN, bc : Bcs, ku : BOOLEAN, eku : BOOLEAN, unknown : Unknowns, ski : BOOLEAN,
-                sigok : BOOLEAN, form : Forms, aki : BOOLEAN]
-  /\ issuer \in [key : IssuerKeys, hasSki : BOOLEAN]
-  \* the flag --copy-extensions exists for `sign` only; request and selfsign have no input and need --commonName
-  /\ (mode # "sign" => ~args.copy)
-  /\ (mode \in {"request", "selfsign"} => (args.cn /\ input = [sanDns |-> FALSE, sanEmail |-> FALSE, bc |-> "absent", ku |-> FALSE, eku |-> FALSE,
-                                                             unknown |-> "absent", ski |-> FALSE, sigok |-> TRUE, form |-> "pem", aki |-> FALSE]))
-  /\ (mode = "request" => (~args.ca /\ args.ku = "none" /\ args.serial = "none" /\ issuer.hasSki))
-  /\ (mode = "selfsign" => issuer.hasSki)
-  \* a certificate that is cross-signed was issued by somebody: its signature is not relic's business, it may carry an
-  \* authorityKeyIdentifier; a request never does
-  /\ (mode = "cross" => input.sigok) /\ (mode # "cross" => ~input.aki)
-  \* sampling of the dimensions that do not interact
-  /\ (args.pss => (issuer.key = "rsa" /\ args.serial = "none" /\ input.form = "pem"))
-  /\ (args.serial # "none" => (input.form = "pem" /\ input.unknown = "absent" /\ ~input.ski))
-  /\ (input.form # "pem" => (args.ku = "none" /\ ~args.dns /\ input.unknown = "absent" /\ ~input.ski /\ ~input.sanEmail))
-  /\ (issuer.key # "rsa" => (input.unknown = "absent" /\ ~input.sanEmail /\ ~input.ski))
+  /\ args \in ArgsFor(mode)
+  /\ input \in InputsFor(mode, args)
+  /\ issuer \in IssuersFor(mode, args, input)
   /\ pc = "start" /\ out = NoCert
 
 -----------------------------------------------------------------------------
